@@ -170,7 +170,7 @@ def dbLine (st : DBRun) (lineNo : Nat) (line : String) : Except String (DBRun ×
       let o : StepObs :=
         { pre := st.cur, caller := caller, op := op, auditOk := get "aok" == "1", saveOk := get "sok" == "1",
           res := res, entries := ents?.getD [], entryBefore := (match get "pre" with | "1" => some true | "0" => some false | _ => none),
-          post := post, mem := parseMem memS }
+          post := post, mem := if memS == "UNOBS" then some (memOf post) else parseMem memS }
       let failed := clauses.filterMap fun (prop, name, f) =>
         if f o then none else some s!"PROPFAIL {prop} {name} {tag} op={get "op"} n={get "n"} v={get "v"} res={get "res"} pre={showState o.pre} post={showState o.post}"
       let (mkv, mres, ments) := specStep o
